@@ -1,10 +1,11 @@
 package main
 
 import (
-	"strings"
-	"sort"
 	"fmt"
+	"github.com/ajitpratap0/GoSQLX/pkg/sql/security"
 	"reflect"
+	"sort"
+	"strings"
 
 	"github.com/ajitpratap0/GoSQLX/pkg/gosqlx"
 	"github.com/ajitpratap0/GoSQLX/pkg/sql/ast"
@@ -263,6 +264,19 @@ func runC14(c *runCtx) {
 	sort.Strings(fams)
 	for _, f := range fams {
 		inputs = append(inputs, c20Families[f](400))
+	}
+	// the injection scanner is an analysis built on the traversal: a payload is reported wherever it sits
+	for _, ctx := range c16Contexts {
+		sql := strings.ReplaceAll(ctx.sql, "{C}", "'a' = 'a'")
+		tree, err := gosqlx.Parse(sql)
+		if err != nil {
+			continue
+		}
+		res.count("scan|"+sql, true)
+		if r := security.NewScanner().Scan(tree); len(r.Findings) == 0 {
+			res.fail("analysis-misses:scan:"+ctx.name, "the injection scanner reports nothing for a tautology written in this position", map[string]any{"sql": truncate(sql, 400)}, nil)
+		}
+		ast.ReleaseAST(tree)
 	}
 	for i, sql := range inputs {
 		tree, err := gosqlx.Parse(sql)
